@@ -23,4 +23,13 @@ def check(repo, rep, tier):
     re_.rule_emitted_text_parses(cm, rep, 'C01.T1')
     rc.rule_templates_implement_minilanguage(cm, rep, 'C01.B1', depth=3, width=2, scope=2, limit=None if tier == 'thorough' else 1500)
     rc.rule_list_order(cm, rep, 'C01.L1')
+    # the engine the compiled code runs on: bindings made and undone by the binder only, = and \= as defined
+    from ..eng import EngineModel
+    from .. import rules_bind as rb
+    from .. import rules_db as rd
+    em = EngineModel(repo)
+    rb.rule_undo_on_all_exits(em, rep, 'C01.E1')
+    rb.rule_bind_ownership(em, rep, 'C01.E2')
+    rb.rule_at_most_one_yield(em, rep, 'C01.E3')
+    rd.rule_neq(em, rep, 'C01.E4')
     rc.rule_compiler_bounded(cm, rep, 'C01.N2', depth=3, scope=3 if tier == 'thorough' else 2)
